@@ -233,6 +233,11 @@ def frames(ctx: Ctx, rows: dict, base: list, rs: RustProgram) -> None:
     ok = isinstance(tgt, Term) and tgt.ctor == "or_expr" and any(isinstance(a, Term) and a.ctor == "and_expr" and repr(a.args[1]) == "reg(3, 'PC')" and ilfacts.value_of(a.args[2]) == 0xFF0000 for a in tgt.args)
     if not ok:
         ctx.violation("C05.3/ret-page", "RET target", f"RET target {_term(tgt)} does not merge the current page", isa.INSTR_PY)
+    # RETF resumes at the popped 3-byte address itself: no page of the *callee* may be merged into it
+    n += 1
+    ftgt = retf.il_terms[-1].args[0] if retf.il_terms and isinstance(retf.il_terms[-1], Term) and retf.il_terms[-1].ctor == "ret" else None
+    if ftgt is None or any(t.ctor == "reg" for t in ilfacts.walk(ftgt)) or not any(t.ctor == "pop" and t.args[0] == 3 for t in ilfacts.walk(ftgt)):
+        ctx.violation("C05.3/retf-target", "RETF target", f"RETF returns to {_term(ftgt) if ftgt is not None else 'nothing'}: a far return must resume at the popped 20-bit address, not at one merged with the current page", isa.INSTR_PY)
     # Rust arms
     ev = rs.evaluator(isa.EVAL_RS)
     for kind, fnname, want in (("Ret", "pop_stack", [16]), ("RetF", "pop_stack", [24])):
@@ -277,7 +282,7 @@ def frames(ctx: Ctx, rows: dict, base: list, rs: RustProgram) -> None:
     ld_imr = [repr(t.args[1]) for t in ilfacts.walk(pushes[2][1].args[1]) if t.ctor == "load"] if len(pushes) == 3 else []
     if not st_imr or st_imr != ld_imr:
         ctx.violation("C05.3/irq-frame", "IR/RETI IMR slot", f"IR's third push reads {ld_imr}, RETI's first pop is stored to {st_imr}", isa.INSTR_PY)
-    ctx.instance("C05.3/frames", "CALL/RET 2 bytes, CALLF/RETF 3 bytes, RET merges the current page; Rust arm widths; IR/RETI frame order, widths and old-value capture", n, 12)
+    ctx.instance("C05.3/frames", "CALL/RET 2 bytes, CALLF/RETF 3 bytes, RET merges the current page; Rust arm widths; IR/RETI frame order, widths and old-value capture; RETF target", n, 13)
 
 
 def rust_formulas(ctx: Ctx, py: PyProgram, rs: RustProgram, rows: dict, base: list, addr: int = ADDR, tag: str = "") -> None:
